@@ -129,3 +129,96 @@ func vForkNS(s string) string {
 	}
 	return "other"
 }
+
+// VerifC15Handover: the same-cluster ObjectSetPhase controllers as wired by their real constructors (namespaced and
+// cluster-scoped) take an object over from the previous revision named in spec.previous - exactly as an in-process
+// phase would: the previous revision is looked up as the right kind of object, an object it (or its delegated phase)
+// controls with a lower recorded revision is adopted with one apply patch, an object controlled by a stranger is left
+// alone and reported as collision.
+func VerifC15Handover() {
+	cluster := verifrt.Bool("clusterScoped")
+	c := verifk8s.NewClient()
+	cache := verifk8s.NewCache()
+	uncached := verifk8s.NewClient()
+	mapper := &verifk8s.RESTMapper{Scope: map[string]int{"ConfigMap": verifk8s.ScopeNamespaced}}
+	ns := "ns"
+	var ctl *GenericObjectSetPhaseController
+	if cluster {
+		ns = ""
+		ctl = NewSameClusterClusterObjectSetPhaseController(logr.Discard(), vScheme(), cache, uncached, "default", c, mapper)
+	} else {
+		ctl = NewSameClusterObjectSetPhaseController(logr.Discard(), vScheme(), cache, uncached, "default", c, mapper)
+	}
+	u := unstructured.Unstructured{Object: map[string]interface{}{}}
+	u.SetAPIVersion("v1")
+	u.SetKind("ConfigMap")
+	u.SetName("cm")
+	u.SetNamespace("target-ns")
+	if !cluster {
+		u.SetNamespace("ns")
+	}
+	prevKind, phaseKind := "ObjectSet", "ObjectSetPhase"
+	if cluster {
+		p := &corev1alpha1.ClusterObjectSetPhase{}
+		p.Name, p.UID, p.ResourceVersion, p.Generation = "me-p", "uid-phase", "5", 3
+		p.Labels = map[string]string{corev1alpha1.ObjectSetPhaseClassLabel: "default"}
+		p.Finalizers = []string{constants.CachedFinalizer}
+		p.Spec.Revision = 2
+		p.Spec.Previous = []corev1alpha1.PreviousRevisionReference{{Name: "rev1"}}
+		p.Spec.Objects = []corev1alpha1.ObjectSetObject{{Object: u}}
+		c.Put(p)
+		prev := &corev1alpha1.ClusterObjectSet{}
+		prev.Name, prev.UID = "rev1", "uid-rev1"
+		prev.Status.Revision = 1
+		c.Put(prev)
+		prevKind, phaseKind = "ClusterObjectSet", "ClusterObjectSetPhase"
+	} else {
+		p := &corev1alpha1.ObjectSetPhase{}
+		p.Name, p.Namespace, p.UID, p.ResourceVersion, p.Generation = "me-p", "ns", "uid-phase", "5", 3
+		p.Labels = map[string]string{corev1alpha1.ObjectSetPhaseClassLabel: "default"}
+		p.Finalizers = []string{constants.CachedFinalizer}
+		p.Spec.Revision = 2
+		p.Spec.Previous = []corev1alpha1.PreviousRevisionReference{{Name: "rev1"}}
+		p.Spec.Objects = []corev1alpha1.ObjectSetObject{{Object: u}}
+		c.Put(p)
+		prev := &corev1alpha1.ObjectSet{}
+		prev.Name, prev.Namespace, prev.UID = "rev1", "ns", "uid-rev1"
+		prev.Status.Revision = 1
+		c.Put(prev)
+	}
+	_ = phaseKind
+	// the object exists, recorded revision 1, controlled by the previous revision or by a stranger
+	byPrevious := verifrt.Bool("object.controlledByPreviousRevision")
+	e := u.DeepCopy()
+	e.SetUID("uid-cm")
+	e.SetResourceVersion("9")
+	e.SetAnnotations(map[string]string{corev1alpha1.ObjectSetRevisionAnnotation: "1"})
+	e.SetLabels(map[string]string{constants.DynamicCacheLabel: "True"})
+	t := true
+	if byPrevious {
+		e.SetOwnerReferences([]metav1.OwnerReference{{APIVersion: "package-operator.run/v1alpha1", Kind: prevKind, Name: "rev1", UID: "uid-rev1", Controller: &t}})
+	} else {
+		e.SetOwnerReferences([]metav1.OwnerReference{{APIVersion: "apps/v1", Kind: "Deployment", Name: "stranger", UID: "uid-stranger", Controller: &t}})
+	}
+	cache.Put(e)
+	uncached.Put(e)
+	_, err := ctl.Reconcile(context.Background(), ctrl.Request{NamespacedName: types.NamespacedName{Namespace: ns, Name: "me-p"}})
+	applies := 0
+	collision := false
+	for _, call := range c.Calls {
+		if call.IsRealWrite() && call.Key.Name == "cm" {
+			applies++
+		}
+		if call.Verb == "status-update" {
+			st, reason, _, found := vCondOf(call.Obj, corev1alpha1.ObjectSetPhaseAvailable)
+			collision = found && st == "False" && reason == "CollisionDetected"
+		}
+	}
+	if byPrevious {
+		verifrt.Assert(err == nil && applies == 1 && !collision, "C15/delegated-phase-adopts-from-previous-revision")
+		verifrt.Reach("handover")
+	} else {
+		verifrt.Assert(applies == 0 && collision, "C15/delegated-phase-refuses-strangers")
+		verifrt.Reach("collision")
+	}
+}
